@@ -674,3 +674,995 @@ Qed.
 Example format_number_diverges_refuted :
   forall fmt_fixed, format_number fmt_fixed (Z.to_nat 100000) fzero "0.0e0" default_decimal_format = LFuel.
 Proof. intros. apply diverges_0_0e0. left. now exists false. Qed.
+
+(* ==================================================================================== *)
+(* 3. Panic freedom                                                                      *)
+(*      process_picture_no_panic   the picture analyser never panics for a good_format    *)
+(*      picture_total              FormatNumber never panics for a good_format with ASCII *)
+(*                                 digits (any value, picture, fuel)                      *)
+(*      new_decimal_format_good    formats built by jlib.newDecimalFormat are good         *)
+(*      picture_total_refuted_for_mixed_width_digits : a panic for zero-digit U+007F       *)
+(* ==================================================================================== *)
+
+(* ---- basic string facts ---- *)
+Lemma slen_stake_le n s : (slen (stake n s) <= slen s)%nat.
+Proof. revert s; induction n; intros [|c s]; simpl; auto; try lia. specialize (IHn s). lia. Qed.
+Lemma slen_stake_le_n n s : (slen (stake n s) <= n)%nat.
+Proof. revert s; induction n; intros [|c s]; simpl; auto; try lia. specialize (IHn s). lia. Qed.
+Lemma slen_sdrop_le n s : (slen (sdrop n s) <= slen s)%nat.
+Proof. rewrite slen_sdrop. lia. Qed.
+
+Lemma sprefix_len p s : sprefix p s = true -> (slen p <= slen s)%nat.
+Proof.
+  revert s; induction p as [|x p IH]; intros [|y s]; simpl; intros H; try lia; try discriminate.
+  apply andb_true_iff in H as [_ H]. specialize (IH s H). lia.
+Qed.
+
+Lemma sindex_from_bound sub s off i :
+  sindex_from sub s off = Some i -> (off <= i /\ i - off + slen sub <= slen s)%nat.
+Proof.
+  revert off; induction s as [|c s IH]; intros off; simpl.
+  - destruct (sprefix sub "") eqn:E; [|discriminate]. intros [= <-].
+    apply sprefix_len in E. simpl in E. lia.
+  - destruct (sprefix sub (String c s)) eqn:E.
+    + intros [= <-]. apply sprefix_len in E. simpl in E. lia.
+    + intros H. apply IH in H. lia.
+Qed.
+
+Lemma sindex_bound sub s i : sindex sub s = Some i -> (i + slen sub <= slen s)%nat.
+Proof. intros H. apply sindex_from_bound in H. lia. Qed.
+
+(* ---- runes ---- *)
+Definition good_rune (r : rune) : Prop := valid_rune r = true /\ r <> RuneError.
+
+Lemma slen_string_of_bytes l : slen (string_of_bytes l) = List.length l.
+Proof. unfold string_of_bytes. induction l; simpl; auto. Qed.
+
+Lemma rune_len_encode r : good_rune r -> rune_len r = Z.of_nat (slen (encode_rune r)).
+Proof.
+  intros [Hv _]. unfold encode_rune, rune_len. rewrite Hv.
+  unfold valid_rune, is_surrogate, MaxRune in *.
+  destruct (r <? 0) eqn:E0; [lia|].
+  destruct (r <? 128) eqn:E1; [now rewrite slen_string_of_bytes|].
+  destruct (r <? 2048) eqn:E2; [now rewrite slen_string_of_bytes|].
+  replace ((55296 <=? r) && (r <=? 57343)) with false by lia.
+  destruct (r <? 65536) eqn:E3; [now rewrite slen_string_of_bytes|].
+  replace (r <=? 1114111) with true by lia. now rewrite slen_string_of_bytes.
+Qed.
+
+Lemma index_func_in_bound l f truth i :
+  index_func_in l f truth = Some i -> In i (map fst l).
+Proof.
+  induction l as [|[j r] l IH]; simpl; [discriminate|].
+  destruct (Bool.eqb (f r) truth); [intros [= <-]; auto|auto].
+Qed.
+
+Lemma runes_pos_fuel_bound fuel : forall s off i,
+  In i (map fst (runes_pos_fuel fuel s off)) -> (off <= i < off + slen s)%nat.
+Proof.
+  induction fuel as [|f IH]; intros s off i; simpl; [tauto|].
+  destruct s as [|c s']; [simpl; tauto|].
+  destruct (decode_rune (String c s')) as [r w] eqn:E.
+  pose proof (decode_rune_width (String c s') ltac:(discriminate)) as Hw. rewrite E in Hw.
+  simpl in Hw. simpl. intros [<-|H]; [lia|].
+  apply IH in H. rewrite slen_sdrop in H. unfold slen in *. cbn [String.length] in *. lia.
+Qed.
+
+Lemma index_func_lt s f i : index_func s f = Some i -> (i < slen s)%nat.
+Proof.
+  unfold index_func, runes_pos. intros H. apply index_func_in_bound in H.
+  apply runes_pos_fuel_bound in H. lia.
+Qed.
+
+(* IndexRune hit: the slice s[pos+RuneLen(r):] is in range *)
+Lemma index_rune_slice_ok s r pos :
+  good_rune r -> index_rune s r = Some pos ->
+  exists s2, go_slice_from s (Z.of_nat pos + rune_len r) = LOk s2 /\
+             (slen s2 < slen s)%nat /\ s2 = sdrop (pos + slen (encode_rune r)) s.
+Proof.
+  intros Hg H. pose proof (rune_len_encode r Hg) as Hl. destruct Hg as [Hv Hne].
+  unfold index_rune in H.
+  assert (Hb : (pos + slen (encode_rune r) <= slen s)%nat /\ (1 <= slen (encode_rune r))%nat).
+  { destruct ((0 <=? r) && (r <? 128)) eqn:E.
+    - apply sindex_bound in H. rewrite slen_string_of_bytes in H. simpl in H.
+      unfold encode_rune. rewrite Hv. replace (r <? 128) with true by lia.
+      rewrite slen_string_of_bytes. simpl. lia.
+    - replace (r =? RuneError) with false in H by lia. rewrite Hv in H. simpl in H.
+      apply sindex_bound in H. split; [lia|].
+      unfold rune_len, valid_rune, is_surrogate, MaxRune in *. 
+      destruct (r <? 0); [lia|]. destruct (r <? 128); [lia|]. destruct (r <? 2048); [lia|].
+      destruct ((55296 <=? r) && (r <=? 57343)); [lia|]. destruct (r <? 65536); [lia|].
+      destruct (r <=? 1114111); lia. }
+  destruct Hb as [Hb1 Hb2]. unfold go_slice_from, zlen.
+  replace ((0 <=? Z.of_nat pos + rune_len r) && (Z.of_nat pos + rune_len r <=? Z.of_nat (slen s)))
+    with true by lia.
+  eexists. split; [reflexivity|]. rewrite Hl, <- Nat2Z.inj_add, Nat2Z.id.
+  split; [rewrite slen_sdrop; lia|reflexivity].
+Qed.
+
+(* ---- UTF-8 decoding facts ---- *)
+Lemma lead_info_bounds b0 sz lo hi :
+  lead_info b0 = Some (sz, lo, hi) ->
+  194 <= b0 /\ 128 <= lo /\ hi <= 191 /\ (sz = 2 \/ sz = 3 \/ sz = 4)%nat.
+Proof.
+  unfold lead_info.
+  repeat match goal with |- context [if ?c then _ else _] => destruct c eqn:? end;
+    intros [= <- <- <-]; lia.
+Qed.
+
+Lemma is_cont_range b lo hi :
+  128 <= lo -> hi <= 191 -> (lo <=? b) && (b <=? hi) = true -> is_cont b = true.
+Proof. unfold is_cont. lia. Qed.
+
+(* continuation bytes inside a decoded rune *)
+Lemma decode_cont t r w :
+  decode_rune t = (r, w) ->
+  forall k, (1 <= k < w)%nat -> exists c, String.get k t = Some c /\ is_cont (byte_of c) = true.
+Proof.
+  intros H k Hk. unfold decode_rune in H.
+  destruct t as [|c0 r0]; [injection H as _ <-; lia|].
+  destruct (byte_of c0 <? 128); [injection H as _ <-; lia|].
+  destruct (lead_info (byte_of c0)) as [[[sz lo] hi]|] eqn:Hl; [|injection H as _ <-; lia].
+  apply lead_info_bounds in Hl as (Hb0 & Hlo & Hhi & Hsz).
+  destruct r0 as [|c1 r1]; [injection H as _ <-; lia|].
+  destruct (negb ((lo <=? byte_of c1) && (byte_of c1 <=? hi))) eqn:E1; [injection H as _ <-; lia|].
+  apply negb_false_iff in E1. pose proof (is_cont_range _ _ _ Hlo Hhi E1) as Hc1.
+  destruct (sz =? 2)%nat.
+  { injection H as _ <-. assert (k = 1%nat) by lia. subst k. exists c1. auto. }
+  destruct r1 as [|c2 r2]; [injection H as _ <-; lia|].
+  destruct (negb (is_cont (byte_of c2))) eqn:E2; [injection H as _ <-; lia|].
+  apply negb_false_iff in E2.
+  destruct (sz =? 3)%nat.
+  { injection H as _ <-. assert (k = 1 \/ k = 2)%nat as [->| ->] by lia;
+      [exists c1|exists c2]; auto. }
+  destruct r2 as [|c3 r3]; [injection H as _ <-; lia|].
+  destruct (negb (is_cont (byte_of c3))) eqn:E3; [injection H as _ <-; lia|].
+  apply negb_false_iff in E3.
+  injection H as _ <-. assert (k = 1 \/ k = 2 \/ k = 3)%nat as [->|[->| ->]] by lia;
+    [exists c1|exists c2|exists c3]; auto.
+Qed.
+
+(* a rune other than U+FFFD starts with a non-continuation byte *)
+Lemma decode_start t r w :
+  decode_rune t = (r, w) -> r <> RuneError ->
+  exists c0 t', t = String c0 t' /\ is_cont (byte_of c0) = false.
+Proof.
+  intros H Hne. unfold decode_rune in H.
+  destruct t as [|c0 r0]; [injection H as <- _; congruence|].
+  exists c0, r0. split; [reflexivity|].
+  destruct (byte_of c0 <? 128) eqn:E0; [unfold is_cont; lia|].
+  destruct (lead_info (byte_of c0)) as [[[sz lo] hi]|] eqn:Hl; [|injection H as <- _; congruence].
+  apply lead_info_bounds in Hl. unfold is_cont. lia.
+Qed.
+
+(* decoding a complete rune does not depend on what follows *)
+Lemma decode_app t u r w :
+  decode_rune t = (r, w) -> r <> RuneError -> decode_rune (t ++ u) = (r, w).
+Proof.
+  intros H Hne. unfold decode_rune in *.
+  destruct t as [|c0 r0]; [injection H as <- _; congruence|]. cbn [append].
+  destruct (byte_of c0 <? 128); [exact H|].
+  destruct (lead_info (byte_of c0)) as [[[sz lo] hi]|]; [|exact H].
+  destruct r0 as [|c1 r1]; [injection H as <- _; congruence|]. cbn [append].
+  destruct (negb ((lo <=? byte_of c1) && (byte_of c1 <=? hi))); [exact H|].
+  destruct (sz =? 2)%nat; [exact H|].
+  destruct r1 as [|c2 r2]; [injection H as <- _; congruence|]. cbn [append].
+  destruct (negb (is_cont (byte_of c2))); [exact H|].
+  destruct (sz =? 3)%nat; [exact H|].
+  destruct r2 as [|c3 r3]; [injection H as <- _; congruence|]. cbn [append].
+  exact H.
+Qed.
+
+Lemma get_sdrop w t k : String.get k (sdrop w t) = String.get (w + k) t.
+Proof. revert t; induction w as [|w IH]; intros [|c t]; simpl; auto. Qed.
+
+Lemma sdrop_app_le l a b : (l <= slen a)%nat -> sdrop l (a ++ b) = sdrop l a ++ b.
+Proof.
+  revert a; induction l as [|l IH]; intros [|c a]; simpl; intros H; auto; try lia.
+  apply IH. lia.
+Qed.
+
+Lemma sdrop_stake_app l i s :
+  (l <= i <= slen s)%nat -> sdrop l s = sdrop l (stake i s) ++ sdrop i s.
+Proof.
+  intros H. rewrite <- (stake_sdrop i s) at 1. apply sdrop_app_le. rewrite slen_stake; lia.
+Qed.
+
+(* forward rune boundaries *)
+Inductive reach : string -> nat -> Prop :=
+| reach0 t : reach t 0
+| reachS t l : t <> "" -> (snd (decode_rune t) <= l)%nat ->
+               reach (sdrop (snd (decode_rune t)) t) (l - snd (decode_rune t)) -> reach t l.
+
+Lemma nojump n : forall t l, (slen t <= n)%nat -> (l < slen t)%nat ->
+  (exists c, String.get l t = Some c /\ is_cont (byte_of c) = false) -> reach t l.
+Proof.
+  induction n as [|n IH]; intros t l Hn Hl (c & Hget & Hc); [lia|].
+  destruct l as [|l']; [constructor|].
+  assert (Hne : t <> "") by (destruct t; simpl in *; [lia|discriminate]).
+  pose proof (decode_rune_width t Hne) as Hw.
+  destruct (decode_rune t) as [r w] eqn:E. simpl in Hw.
+  assert (Hwl : (w <= S l')%nat).
+  { destruct (le_lt_dec w (S l')) as [|Hlt]; [assumption|exfalso].
+    destruct (decode_cont t r w E (S l') ltac:(lia)) as (c' & Hget' & Hc').
+    rewrite Hget in Hget'. injection Hget' as <-. congruence. }
+  apply reachS; [exact Hne|rewrite E; cbn [snd]; exact Hwl|rewrite E; cbn [snd]].
+  apply IH.
+  - rewrite slen_sdrop. unfold slen in *. lia.
+  - rewrite slen_sdrop. unfold slen in *. lia.
+  - exists c. rewrite get_sdrop. replace (w + (S l' - w))%nat with (S l') by lia. auto.
+Qed.
+
+Lemma index_func_reach f : forall fuel t off l,
+  (slen t <= fuel)%nat -> reach t l -> (l < slen t)%nat ->
+  f (fst (decode_rune (sdrop l t))) = true ->
+  exists i, index_func_in (runes_pos_fuel fuel t off) f true = Some i /\ (i <= off + l)%nat.
+Proof.
+  induction fuel as [|fu IH]; intros t off l Hfu Hr Hl Hf; [lia|].
+  destruct t as [|c t']; [simpl in Hl; lia|].
+  cbn [runes_pos_fuel]. destruct (decode_rune (String c t')) as [r w] eqn:E.
+  cbn [index_func_in].
+  destruct (Bool.eqb (f r) true) eqn:Efr; [exists off; split; [reflexivity|lia]|].
+  inversion Hr as [|t0 l0 Hne Hwl Hr']; subst.
+  - cbn [sdrop] in Hf. rewrite E in Hf. cbn [fst] in Hf. rewrite Hf in Efr. discriminate.
+  - rewrite E in *. cbn [snd] in Hwl, Hr'.
+    pose proof (decode_rune_width (String c t') ltac:(discriminate)) as Hw. rewrite E in Hw.
+    simpl snd in Hw.
+    destruct (IH (sdrop w (String c t')) (off + w)%nat (l - w)%nat) as (i & Hi & Hle).
+    + rewrite slen_sdrop. lia.
+    + exact Hr'.
+    + rewrite slen_sdrop. lia.
+    + assert (Hdd : sdrop (l - w) (sdrop w (String c t')) = sdrop l (String c t')).
+      { clear -Hwl. revert l Hwl. generalize (String c t') as s.
+        induction w as [|w IHw]; intros s l Hwl.
+        - simpl. now rewrite Nat.sub_0_r.
+        - destruct l as [|l]; [lia|]. destruct s as [|x s]; simpl.
+          + now destruct (l - w)%nat.
+          + apply IHw. lia. }
+      rewrite Hdd. exact Hf.
+    + exists i. split; [exact Hi|lia].
+Qed.
+
+(* ---- backwards decoding ---- *)
+Lemma last_char t : t <> "" ->
+  exists c, sdrop (slen t - 1) t = String c "" /\ String.get (slen t - 1) t = Some c.
+Proof.
+  induction t as [|c t IH]; [congruence|intros _].
+  destruct t as [|c' t'].
+  - exists c. simpl. auto.
+  - destruct (IH ltac:(discriminate)) as (x & H1 & H2). exists x.
+    replace (slen (String c (String c' t')) - 1)%nat with (S (slen (String c' t') - 1))
+      by (simpl; lia).
+    simpl sdrop. cbn [String.get]. auto.
+Qed.
+
+Lemma decode_last_rune_inv t r size :
+  decode_last_rune t = (r, size) -> r <> RuneError ->
+  (1 <= size <= slen t)%nat /\ decode_rune (sdrop (slen t - size) t) = (r, size).
+Proof.
+  unfold decode_last_rune, zlen. intros H Hne.
+  destruct (Z.of_nat (slen t) =? 0) eqn:E0; [injection H as <- _; congruence|].
+  assert (Htne : t <> "") by (destruct t; [simpl in E0; lia|discriminate]).
+  destruct (byte_at t (Z.of_nat (slen t) - 1) <? 128) eqn:Eb.
+  - injection H as <- <-. destruct (last_char t Htne) as (c & Hd & Hg).
+    split; [lia|]. rewrite Hd. unfold byte_at in *.
+    replace (Z.to_nat (Z.of_nat (slen t) - 1)) with (slen t - 1)%nat in * by lia.
+    rewrite Hg in *. unfold decode_rune. now rewrite Eb.
+  - set (start0 := scan_back 5 t (Z.of_nat (slen t) - 2) (Z.max (Z.of_nat (slen t) - 4) 0)) in H.
+    set (start := if start0 <? 0 then 0 else start0) in H.
+    destruct (decode_rune (sdrop (Z.to_nat start) t)) as [r' size'] eqn:Ed.
+    destruct (start + Z.of_nat size' =? Z.of_nat (slen t)) eqn:Ee;
+      [|injection H as <- _; congruence].
+    injection H as <- <-.
+    assert (0 <= start) by (unfold start; destruct (start0 <? 0) eqn:?; lia).
+    assert (Hs : Z.to_nat start = (slen t - size')%nat) by lia.
+    rewrite Hs in Ed.
+    assert (sdrop (slen t - size') t <> "").
+    { intros Hc. rewrite Hc in Ed. simpl in Ed. injection Ed as <- _. congruence. }
+    pose proof (decode_rune_width _ H0) as Hw. rewrite Ed in Hw. simpl in Hw.
+    rewrite slen_sdrop in Hw. split; [lia|exact Ed].
+Qed.
+
+Lemma last_index_func_aux_inv f truth s : forall fuel i l,
+  (i <= slen s)%nat ->
+  last_index_func_aux fuel s i f truth = Some l ->
+  exists j r size, (j <= slen s)%nat /\ decode_last_rune (stake j s) = (r, size) /\
+                   l = (j - size)%nat /\ Bool.eqb (f r) truth = true /\ (0 < j)%nat.
+Proof.
+  induction fuel as [|fu IH]; intros i l Hi; cbn [last_index_func_aux]; [discriminate|].
+  destruct (i =? 0)%nat eqn:Ei; [discriminate|].
+  destruct (decode_last_rune (stake i s)) as [r size] eqn:Ed.
+  destruct (Bool.eqb (f r) truth) eqn:Ef.
+  - intros [= <-]. exists i, r, size. repeat split; auto. lia.
+  - intros H. apply IH in H; [exact H|lia].
+Qed.
+
+(* the forward scan finds an active rune no later than the backward scan *)
+Lemma first_le_last s f l :
+  f RuneError = false ->
+  last_index_func s f true = Some l ->
+  exists first', index_func s f = Some first' /\
+    (first' <= l + snd (decode_rune (sdrop l s)) <= slen s)%nat.
+Proof.
+  intros HfE Hl. unfold last_index_func in Hl.
+  apply last_index_func_aux_inv in Hl; [|lia].
+  destruct Hl as (j & r & size & Hj & Hd & -> & Hf & Hj0).
+  assert (Hfr : f r = true) by (destruct (f r); auto; discriminate).
+  assert (Hne : r <> RuneError) by (intros ->; congruence).
+  apply decode_last_rune_inv in Hd as [Hsz Hdec]; [|exact Hne].
+  rewrite slen_stake in Hsz, Hdec by lia.
+  (* the same rune is decoded forwards at j - size in s *)
+  assert (Hfwd : decode_rune (sdrop (j - size) s) = (r, size)).
+  { rewrite (sdrop_stake_app (j - size) j s) by lia. now apply decode_app. }
+  rewrite Hfwd. cbn [snd].
+  destruct (decode_start _ _ _ Hfwd Hne) as (c0 & t' & Ht & Hc0).
+  assert (Hr : reach s (j - size)).
+  { apply (nojump (slen s)); [lia|lia|].
+    exists c0. split; [|exact Hc0].
+    rewrite <- (Nat.add_0_r (j - size)), <- get_sdrop, Ht. reflexivity. }
+  destruct (index_func_reach f (slen s) s 0 (j - size) ltac:(lia) Hr ltac:(lia)) as (i & Hi & Hle).
+  { rewrite Hfwd. exact Hfr. }
+  exists i. split; [exact Hi|lia].
+Qed.
+
+Lemma byte_of_range c : 0 <= byte_of c < 256.
+Proof.
+  unfold byte_of. pose proof (N_ascii_bounded c) as H. lia.
+Qed.
+
+Lemma lead_info_cases b0 sz lo hi :
+  lead_info b0 = Some (sz, lo, hi) ->
+  (sz = 2%nat /\ 194 <= b0 <= 223 /\ lo = 128 /\ hi = 191) \/
+  (sz = 3%nat /\ b0 = 224 /\ lo = 160 /\ hi = 191) \/
+  (sz = 3%nat /\ 225 <= b0 <= 239 /\ b0 <> 237 /\ lo = 128 /\ hi = 191) \/
+  (sz = 3%nat /\ b0 = 237 /\ lo = 128 /\ hi = 159) \/
+  (sz = 4%nat /\ b0 = 240 /\ lo = 144 /\ hi = 191) \/
+  (sz = 4%nat /\ 241 <= b0 <= 243 /\ lo = 128 /\ hi = 191) \/
+  (sz = 4%nat /\ b0 = 244 /\ lo = 128 /\ hi = 143).
+Proof.
+  unfold lead_info.
+  repeat match goal with |- context [if ?c then _ else _] => destruct c eqn:? end;
+    intros [= <- <- <-]; lia.
+Qed.
+
+Ltac next_byte H c R :=
+  match type of H with context [match ?r1 with EmptyString => _ | String _ _ => _ end] =>
+    let rr := fresh "rr" in
+    destruct r1 as [|c rr]; [injection H as <- _; congruence|] end;
+  pose proof (byte_of_range c) as R;
+  let E := fresh "E" in
+  destruct (negb (is_cont (byte_of c))) eqn:E; [injection H as <- _; congruence|];
+  apply negb_false_iff in E; unfold is_cont in E.
+
+Ltac three_bytes H c0 c1 Hl E1a E1b R0 R1 Hne :=
+  let c2 := fresh "c2" in let R2 := fresh "R2" in
+  next_byte H c2 R2;
+  injection H as <- <-; unfold rune_len, is_surrogate, MaxRune;
+  let v := fresh "v" in
+  set (v := byte_of c0 mod 16 * 4096 + byte_of c1 mod 64 * 64 + byte_of c2 mod 64);
+  assert (2048 <= v < 65536 /\ ~ (55296 <= v <= 57343)) by (unfold v; Z.to_euclidean_division_equations; lia);
+  replace (v <? 0) with false by lia; replace (v <? 128) with false by lia;
+  replace (v <? 2048) with false by lia;
+  replace ((55296 <=? v) && (v <=? 57343)) with false by lia;
+  replace (v <? 65536) with true by lia; reflexivity.
+
+Ltac four_bytes H c0 c1 Hl E1a E1b R0 R1 Hne :=
+  let c2 := fresh "c2" in let R2 := fresh "R2" in
+  let c3 := fresh "c3" in let R3 := fresh "R3" in
+  next_byte H c2 R2; next_byte H c3 R3;
+  injection H as <- <-; unfold rune_len, is_surrogate, MaxRune;
+  let v := fresh "v" in
+  set (v := byte_of c0 mod 8 * 262144 + byte_of c1 mod 64 * 4096 + byte_of c2 mod 64 * 64 +
+            byte_of c3 mod 64);
+  assert (65536 <= v <= 1114111) by (unfold v; Z.to_euclidean_division_equations; lia);
+  replace (v <? 0) with false by lia; replace (v <? 128) with false by lia;
+  replace (v <? 2048) with false by lia;
+  replace ((55296 <=? v) && (v <=? 57343)) with false by lia;
+  replace (v <? 65536) with false by lia; replace (v <=? 1114111) with true by lia; reflexivity.
+
+(* the width of a decoded rune is its RuneLen *)
+Lemma decode_rune_len t r w :
+  decode_rune t = (r, w) -> r <> RuneError -> rune_len r = Z.of_nat w.
+Proof.
+  intros H Hne. unfold decode_rune in H.
+  destruct t as [|c0 r0]; [injection H as <- _; congruence|].
+  pose proof (byte_of_range c0) as R0.
+  destruct (byte_of c0 <? 128) eqn:E0.
+  { injection H as <- <-. unfold rune_len. replace (byte_of c0 <? 0) with false by lia.
+    now rewrite E0. }
+  destruct (lead_info (byte_of c0)) as [[[sz lo] hi]|] eqn:Hl; [|injection H as <- _; congruence].
+  apply lead_info_cases in Hl.
+  destruct r0 as [|c1 r1]; [injection H as <- _; congruence|].
+  pose proof (byte_of_range c1) as R1.
+  destruct (negb ((lo <=? byte_of c1) && (byte_of c1 <=? hi))) eqn:E1;
+    [injection H as <- _; congruence|].
+  apply negb_false_iff in E1. apply andb_true_iff in E1 as [E1a E1b].
+  apply Z.leb_le in E1a, E1b.
+  destruct Hl as [Hl|[Hl|[Hl|[Hl|[Hl|[Hl|Hl]]]]]]; destruct Hl as (-> & Hl);
+    cbn [Nat.eqb] in H.
+  - (* 2 bytes *)
+    injection H as <- <-. unfold rune_len, is_surrogate, MaxRune.
+    set (v := byte_of c0 mod 32 * 64 + byte_of c1 mod 64).
+    assert (128 <= v < 2048) by (unfold v; Z.to_euclidean_division_equations; lia).
+    replace (v <? 0) with false by lia. replace (v <? 128) with false by lia.
+    replace (v <? 2048) with true by lia. reflexivity.
+  - three_bytes H c0 c1 Hl E1a E1b R0 R1 Hne.
+  - three_bytes H c0 c1 Hl E1a E1b R0 R1 Hne.
+  - three_bytes H c0 c1 Hl E1a E1b R0 R1 Hne.
+  - four_bytes H c0 c1 Hl E1a E1b R0 R1 Hne.
+  - four_bytes H c0 c1 Hl E1a E1b R0 R1 Hne.
+  - four_bytes H c0 c1 Hl E1a E1b R0 R1 Hne.
+Qed.
+
+Lemma rune_len_mono a b : 1 <= rune_len a -> 1 <= rune_len b -> a <= b -> rune_len a <= rune_len b.
+Proof.
+  unfold rune_len, is_surrogate, MaxRune.
+  repeat match goal with |- context [if ?c then _ else _] => destruct c eqn:? end; lia.
+Qed.
+
+Lemma sdrop_sdrop a b s : sdrop a (sdrop b s) = sdrop (b + a) s.
+Proof.
+  revert s; induction b as [|b IH]; intros s; simpl; auto.
+  destruct s as [|c s]; simpl; [now destruct a|apply IH].
+Qed.
+
+(* what IndexFunc found *)
+Lemma index_func_in_hit f truth : forall fuel t off i,
+  index_func_in (runes_pos_fuel fuel t off) f truth = Some i ->
+  (off <= i)%nat /\
+  Bool.eqb (f (fst (decode_rune (sdrop (i - off) t)))) truth = true /\
+  (i - off + snd (decode_rune (sdrop (i - off) t)) <= slen t)%nat /\
+  sdrop (i - off) t <> "".
+Proof.
+  induction fuel as [|fu IH]; intros t off i; cbn [runes_pos_fuel index_func_in]; [discriminate|].
+  destruct t as [|c t']; [discriminate|].
+  destruct (decode_rune (String c t')) as [r w] eqn:E. cbn [index_func_in].
+  pose proof (decode_rune_width (String c t') ltac:(discriminate)) as Hw. rewrite E in Hw.
+  cbn [snd] in Hw.
+  destruct (Bool.eqb (f r) truth) eqn:Ef.
+  - intros [= <-]. rewrite Nat.sub_diag. cbn [sdrop]. rewrite E. cbn [fst snd].
+    repeat split; auto; try lia. discriminate.
+  - intros H. apply IH in H as (H1 & H2 & H3 & H4).
+    rewrite sdrop_sdrop in H2, H3, H4. rewrite slen_sdrop in H3.
+    replace (w + (i - (off + w)))%nat with (i - off)%nat in * by lia.
+    repeat split; auto; lia.
+Qed.
+
+Lemma index_func_hit s f i :
+  index_func s f = Some i ->
+  f (fst (decode_rune (sdrop i s))) = true /\
+  (i + snd (decode_rune (sdrop i s)) <= slen s)%nat /\ sdrop i s <> "".
+Proof.
+  unfold index_func, runes_pos. intros H. apply index_func_in_hit in H as (_ & H2 & H3 & H4).
+  rewrite Nat.sub_0_r in *. split; [|split; assumption].
+  destruct (f _); auto; discriminate.
+Qed.
+
+(* ---- no panic in the picture analyser ---- *)
+Definition np {A} (r : lres A) : Prop := forall w, r <> LPanic w.
+
+Lemma lbind_np {A B} (x : lres A) (f : A -> lres B) :
+  np x -> (forall a, x = LOk a -> np (f a)) -> np (lbind x f).
+Proof.
+  unfold np. destruct x as [a|t| |why|]; simpl; intros Hx Hf w; try discriminate.
+  - now apply Hf.
+  - intros E. now apply (Hx why).
+Qed.
+
+Record good_format (fmt : decimal_format) : Prop := {
+  gf_dec : good_rune (df_decimal_separator fmt);
+  gf_grp : good_rune (df_group_separator fmt);
+  gf_exp : good_rune (df_exponent_separator fmt);
+  gf_pat : good_rune (df_pattern_separator fmt);
+  gf_opt : good_rune (df_optional_digit fmt);
+  gf_zero : good_rune (df_zero_digit fmt);
+  gf_err : is_decimal_digit fmt RuneError = false
+}.
+
+Lemma np_ok {A} (a : A) : np (LOk a). Proof. intros w; discriminate. Qed.
+Lemma np_err {A} t : np (@LErr A t). Proof. intros w; discriminate. Qed.
+#[local] Hint Resolve np_ok np_err : npdb.
+
+Lemma split_string_at_rune_np s r : good_rune r -> np (split_string_at_rune s r).
+Proof.
+  intros Hg. unfold split_string_at_rune.
+  destruct (index_rune s r) as [pos|] eqn:E; [|auto with npdb].
+  destruct (index_rune_slice_ok s r pos Hg E) as (s2 & -> & _). simpl.
+  destruct (negb (contains_rune s2 r)); auto with npdb.
+Qed.
+
+Lemma is_active_RuneError fmt : good_format fmt -> is_active fmt RuneError = false.
+Proof.
+  intros [[_ H1] [_ H2] [_ H3] [_ H4] [_ H5] _ H7]. unfold is_active.
+  replace (RuneError =? df_decimal_separator fmt) with false by lia.
+  replace (RuneError =? df_exponent_separator fmt) with false by lia.
+  replace (RuneError =? df_group_separator fmt) with false by lia.
+  replace (RuneError =? df_pattern_separator fmt) with false by lia.
+  replace (RuneError =? df_optional_digit fmt) with false by lia. exact H7.
+Qed.
+
+Lemma extract_np sub fmt : good_format fmt -> np (extract_subpicture_parts sub fmt).
+Proof.
+  intros Hg. unfold extract_subpicture_parts. cbv zeta.
+  set (isA := fun r : Z => negb (r =? df_exponent_separator fmt) && is_active fmt r).
+  assert (HisA : isA RuneError = false).
+  { unfold isA. rewrite (is_active_RuneError fmt Hg). apply andb_false_r. }
+  set (first := match index_func sub isA with Some i => i | None => 0%nat end).
+  set (last := match last_index_func sub isA true with
+               | None => slen sub
+               | Some l => let '(_, w) := decode_rune (sdrop l sub) in (l + w)%nat end).
+  assert (Hfl : (first <= last)%nat).
+  { unfold first, last. destruct (last_index_func sub isA true) as [l|] eqn:El.
+    - destruct (first_le_last sub isA l HisA El) as (f' & Hf' & Hle).
+      rewrite Hf'. destruct (decode_rune (sdrop l sub)) as [r w]. simpl in Hle. lia.
+    - destruct (index_func sub isA) as [i|] eqn:Ei; [|lia]. apply index_func_lt in Ei. lia. }
+  replace (last <? first)%nat with false by lia.
+  apply lbind_np.
+  - destruct (index_rune (sslice first last sub) (df_exponent_separator fmt)) as [pos|] eqn:E;
+      [|auto with npdb].
+    destruct (index_rune_slice_ok _ _ pos (gf_exp fmt Hg) E) as (s2 & -> & _). simpl.
+    auto with npdb.
+  - intros [mantissaPart exponentPart] _. apply lbind_np.
+    + destruct (index_rune mantissaPart (df_decimal_separator fmt)) as [pos|] eqn:E;
+        [|auto with npdb].
+      destruct (index_rune_slice_ok _ _ pos (gf_dec fmt Hg) E) as (s2 & -> & _). simpl.
+      auto with npdb.
+    + intros [integerPart fractionalPart] _. auto with npdb.
+Qed.
+
+Lemma wrap32_small z : - 2 ^ 31 <= z < 2 ^ 31 -> wrap32 z = z.
+Proof. intros H. unfold wrap32. rewrite Z.mod_small by lia. lia. Qed.
+
+Lemma rune_len_range r : 1 <= rune_len r -> 0 <= r <= 1114111.
+Proof.
+  unfold rune_len, is_surrogate, MaxRune.
+  repeat match goal with |- context [if ?c then _ else _] => destruct c eqn:? end; lia.
+Qed.
+
+Lemma good_rune_len r : good_rune r -> 1 <= rune_len r /\ 0 <= r <= 1114111.
+Proof.
+  intros [Hv _]. unfold valid_rune, rune_len, is_surrogate, MaxRune in *.
+  repeat match goal with |- context [if ?c then _ else _] => destruct c eqn:? end; lia.
+Qed.
+
+(* the slice after the first mandatory digit of the integer part *)
+Lemma digit_slice_ok fmt s pos :
+  good_format fmt -> index_func s (is_decimal_digit fmt) = Some pos ->
+  exists rest, go_slice_from s (Z.of_nat pos + rune_len (df_zero_digit fmt)) = LOk rest.
+Proof.
+  intros Hg H. apply index_func_hit in H as (Hd & Hle & Hne).
+  destruct (decode_rune (sdrop pos s)) as [r w] eqn:E. cbn [fst snd] in *.
+  assert (Hr : r <> RuneError) by (intros ->; rewrite (gf_err fmt Hg) in Hd; discriminate).
+  pose proof (decode_rune_len _ _ _ E Hr) as Hlen.
+  pose proof (decode_rune_width _ Hne) as Hw. rewrite E in Hw. cbn [snd] in Hw.
+  destruct (good_rune_len _ (gf_zero fmt Hg)) as [Hz1 Hz2].
+  pose proof (rune_len_range r ltac:(lia)) as Hrr.
+  unfold is_decimal_digit in Hd. rewrite wrap32_small in Hd by lia.
+  assert (Hmono : rune_len (df_zero_digit fmt) <= rune_len r)
+    by (apply rune_len_mono; lia).
+  unfold go_slice_from, zlen.
+  replace ((0 <=? Z.of_nat pos + rune_len (df_zero_digit fmt)) &&
+           (Z.of_nat pos + rune_len (df_zero_digit fmt) <=? Z.of_nat (slen s))) with true by lia.
+  eauto.
+Qed.
+
+Ltac np_ifs :=
+  repeat match goal with
+         | |- np (if ?c then _ else _) => destruct c
+         | |- np (match index_func ?s ?f with Some _ => _ | None => _ end) =>
+             destruct (index_func s f)
+         | |- np (LOk _) => apply np_ok
+         | |- np (LErr _) => apply np_err
+         end.
+
+Lemma validate_np parts fmt : good_format fmt -> np (validate_subpicture_parts parts fmt).
+Proof.
+  intros Hg. unfold validate_subpicture_parts. cbv zeta. np_ifs.
+  apply lbind_np.
+  { destruct (index_func (sp_integer parts) (is_decimal_digit fmt)) as [pos|] eqn:E;
+      [|auto with npdb].
+    destruct (digit_slice_ok fmt _ pos Hg E) as (rest & ->). simpl. np_ifs. }
+  intros _ _. apply lbind_np.
+  { destruct (index_rune (sp_fractional parts) (df_optional_digit fmt)) as [pos|] eqn:E;
+      [|auto with npdb].
+    destruct (index_rune_slice_ok _ _ pos (gf_opt fmt Hg) E) as (rest & -> & _). simpl. np_ifs. }
+  intros _ _. np_ifs.
+Qed.
+
+Lemma ggp_aux_np sep fn ll : good_rune sep ->
+  forall fuel s acc, np (get_group_positions_aux fuel s sep fn ll acc).
+Proof.
+  intros Hg. induction fuel as [|f IH]; intros s acc; cbn [get_group_positions_aux];
+    [auto with npdb|].
+  destruct (index_rune s sep) as [pos|] eqn:E; [|auto with npdb].
+  destruct (index_rune_slice_ok s sep pos Hg E) as (s2 & -> & _). simpl. apply IH.
+Qed.
+
+Lemma analyse_np parts fmt : good_format fmt -> np (analyse_subpicture_parts parts fmt).
+Proof.
+  intros Hg. unfold analyse_subpicture_parts, get_group_positions. cbv zeta.
+  apply lbind_np; [apply ggp_aux_np, (gf_grp fmt Hg)|intros igp _].
+  apply lbind_np; [apply ggp_aux_np, (gf_grp fmt Hg)|intros fgp _].
+  repeat match goal with
+         | |- np (let '(_, _) := ?p in _) => destruct p
+         end.
+  auto with npdb.
+Qed.
+
+Lemma process_subpicture_np sub fmt : good_format fmt -> np (process_subpicture sub fmt).
+Proof.
+  intros Hg. unfold process_subpicture.
+  apply lbind_np; [now apply extract_np|intros parts _].
+  apply lbind_np; [now apply validate_np|intros _ _]. now apply analyse_np.
+Qed.
+
+(* THEOREM 3a: the picture analyser never panics for a format whose separators and digits are
+   valid runes other than U+FFFD *)
+Theorem process_picture_no_panic picture fmt neg :
+  good_format fmt -> np (process_picture picture fmt neg).
+Proof.
+  intros Hg. unfold process_picture.
+  apply lbind_np; [apply split_string_at_rune_np, (gf_pat fmt Hg)|intros [pic1 pic2] _].
+  destruct (seqb pic1 ""); [auto with npdb|].
+  apply lbind_np; [now apply process_subpicture_np|intros vars1 _].
+  apply lbind_np.
+  - destruct (seqb pic2 ""); [auto with npdb|now apply process_subpicture_np].
+  - intros vars2 _. destruct neg; [destruct (negb _)|]; auto with npdb.
+Qed.
+Print Assumptions process_picture_no_panic.
+
+(* ---- no panic in the formatter for formats with ASCII digits ---- *)
+Fixpoint all_ascii (s : string) : bool :=
+  match s with EmptyString => true | String c r => (byte_of c <? 128) && all_ascii r end.
+
+Lemma all_ascii_app a b : all_ascii (a ++ b) = all_ascii a && all_ascii b.
+Proof. induction a as [|c a IH]; simpl; auto. rewrite IH. now rewrite andb_assoc. Qed.
+
+Lemma all_ascii_sdrop n s : all_ascii s = true -> all_ascii (sdrop n s) = true.
+Proof.
+  revert s; induction n as [|n IH]; intros [|c s]; simpl; auto.
+  intros H. apply andb_true_iff in H as [_ H]. auto.
+Qed.
+
+Lemma all_ascii_stake n s : all_ascii s = true -> all_ascii (stake n s) = true.
+Proof.
+  revert s; induction n as [|n IH]; intros [|c s]; simpl; auto.
+  intros H. apply andb_true_iff in H as [H1 H]. rewrite H1. simpl. auto.
+Qed.
+
+Lemma all_ascii_srepeat s n : all_ascii s = true -> all_ascii (srepeat s n) = true.
+Proof. intros H. induction n; simpl; auto. rewrite all_ascii_app, H. auto. Qed.
+
+Lemma runes_fuel_ascii fuel : forall s, (slen s <= fuel)%nat -> all_ascii s = true ->
+  runes_fuel fuel s = map byte_of (list_of_string s).
+Proof.
+  induction fuel as [|f IH]; intros [|c s] Hf Ha; simpl in *; auto; try lia.
+  apply andb_true_iff in Ha as [Hc Ha]. rewrite Hc. simpl. f_equal. apply IH; [lia|exact Ha].
+Qed.
+
+Lemma runes_ascii s : all_ascii s = true -> runes s = map byte_of (list_of_string s).
+Proof. intros H. unfold runes. now apply runes_fuel_ascii. Qed.
+
+Lemma length_list_of_string s : List.length (list_of_string s) = slen s.
+Proof. induction s; simpl; auto. Qed.
+
+Lemma rune_count_ascii s : all_ascii s = true -> rune_count s = slen s.
+Proof.
+  intros H. unfold rune_count. rewrite runes_ascii by exact H.
+  now rewrite map_length, length_list_of_string.
+Qed.
+
+Lemma byte_of_ascii_of_Z z : 0 <= z < 256 -> byte_of (ascii_of_Z z) = z.
+Proof.
+  intros H. unfold byte_of, ascii_of_Z. rewrite Z.mod_small by lia.
+  rewrite N_ascii_embedding; [lia|].
+  apply N2Z.inj_lt. rewrite Z2N.id by lia. simpl. lia.
+Qed.
+
+Lemma encode_rune_ascii r : 0 <= r < 128 -> all_ascii (encode_rune r) = true.
+Proof.
+  intros H. unfold encode_rune, valid_rune. replace ((0 <=? r) && (r <? 55296)) with true by lia.
+  simpl. replace (r <? 128) with true by lia. unfold string_of_bytes. simpl.
+  rewrite byte_of_ascii_of_Z by lia. replace (r <? 128) with true by lia. reflexivity.
+Qed.
+
+Lemma map_runes_ascii f s :
+  all_ascii s = true -> (forall r, 0 <= r < 128 -> 0 <= f r < 128) ->
+  all_ascii (map_runes f s) = true.
+Proof.
+  intros Ha Hf. unfold map_runes. rewrite runes_ascii by exact Ha.
+  induction s as [|c s IH]; simpl; auto.
+  simpl in Ha. apply andb_true_iff in Ha as [Hc Ha].
+  pose proof (byte_of_range c) as Hr. specialize (Hf (byte_of c) ltac:(lia)).
+  replace (0 <=? f (byte_of c)) with true by lia.
+  rewrite all_ascii_app, encode_rune_ascii by lia. simpl. auto.
+Qed.
+
+Lemma decode_last_rune_ascii t :
+  t <> "" -> all_ascii t = true -> snd (decode_last_rune t) = 1%nat.
+Proof.
+  intros Hne Ha. unfold decode_last_rune, zlen.
+  destruct (Z.of_nat (slen t) =? 0) eqn:E0; [destruct t; [congruence|simpl in E0; lia]|].
+  destruct (last_char t Hne) as (c & Hd & Hg).
+  unfold byte_at. replace (Z.to_nat (Z.of_nat (slen t) - 1)) with (slen t - 1)%nat by lia.
+  rewrite Hg.
+  assert (Hc : byte_of c <? 128 = true).
+  { pose proof (all_ascii_sdrop (slen t - 1) t Ha) as H. rewrite Hd in H. simpl in H.
+    now apply andb_true_iff in H as [H _]. }
+  now rewrite Hc.
+Qed.
+
+Lemma ise_loop_np_ascii s interval : all_ascii s = true -> 0 < interval ->
+  forall n en acc, Z.of_nat n * interval <= en <= zlen s ->
+    np (ise_loop n s en interval acc).
+Proof.
+  intros Ha Hi. induction n as [|n IH]; intros en acc Hen; cbn [ise_loop]; [apply np_ok|].
+  destruct (decode_last_rune (stake (Z.to_nat en) s)) as [r w] eqn:E.
+  assert (Hw : w = 1%nat).
+  { replace w with (snd (decode_last_rune (stake (Z.to_nat en) s))) by now rewrite E.
+    apply decode_last_rune_ascii; [|now apply all_ascii_stake].
+    intros Hc. assert (Hl : slen (stake (Z.to_nat en) s) = Z.to_nat en)
+      by (apply slen_stake; unfold zlen in Hen; lia).
+    rewrite Hc in Hl. simpl in Hl. lia. }
+  subst w. replace (en - interval * Z.of_nat 1 <? 0) with false by lia.
+  apply IH. lia.
+Qed.
+
+Lemma insert_separators_every_np_ascii s sep interval :
+  all_ascii s = true -> np (insert_separators_every s sep interval).
+Proof.
+  intros Ha. unfold insert_separators_every.
+  destruct ((interval <=? 0) || (Z.of_nat (rune_count s) <=? interval)) eqn:E; [apply np_ok|].
+  apply lbind_np; [|intros; apply np_ok].
+  apply ise_loop_np_ascii; [exact Ha|lia|].
+  rewrite rune_count_ascii in * by exact Ha. unfold zlen.
+  assert (0 <= (Z.of_nat (slen s) - 1) / interval) by (apply Z.div_pos; lia).
+  rewrite Z2Nat.id by lia.
+  pose proof (Z.mul_div_le (Z.of_nat (slen s) - 1) interval ltac:(lia)). lia.
+Qed.
+
+Definition ascii_digits (fmt : decimal_format) : Prop :=
+  0 <= df_zero_digit fmt /\ df_zero_digit fmt + 9 < 128.
+
+Lemma trim_left_func_ascii s f : all_ascii s = true -> all_ascii (trim_left_func s f) = true.
+Proof.
+  intros H. unfold trim_left_func. destruct (index_func_in _ _ _); [|reflexivity].
+  now apply all_ascii_sdrop.
+Qed.
+
+Lemma format_integer_part_np_ascii integer vars fmt :
+  ascii_digits fmt -> all_ascii integer = true -> np (format_integer_part integer vars fmt).
+Proof.
+  intros [Hz0 Hz9] Ha. unfold format_integer_part. cbv zeta.
+  set (t := trim_left_func integer (is_zero_digit fmt)).
+  assert (Ht : all_ascii t = true) by now apply trim_left_func_ascii.
+  assert (Hzd : all_ascii (encode_rune (df_zero_digit fmt)) = true)
+    by (apply encode_rune_ascii; lia).
+  set (padded := if _ =? 1 then _ else _).
+  assert (Hp : all_ascii padded = true).
+  { unfold padded. destruct (_ =? 1); [now rewrite all_ascii_app, Hzd, Ht|].
+    destruct (1 <? _); [|exact Ht].
+    rewrite all_ascii_app, Ht, all_ascii_srepeat by exact Hzd. reflexivity. }
+  destruct (0 <? sv_group_size vars); [now apply insert_separators_every_np_ascii|].
+  destruct (sv_integer_group_positions vars); apply np_ok.
+Qed.
+
+Lemma split_string_at_byte_ascii s b :
+  all_ascii s = true -> all_ascii (fst (split_string_at_byte s b)) = true.
+Proof.
+  intros H. unfold split_string_at_byte. destruct (sindex _ s) as [pos|]; [|exact H].
+  destruct (sindex _ (sdrop (pos + 1) s)); [reflexivity|]. simpl. now apply all_ascii_stake.
+Qed.
+
+Section NoPanic.
+  Variable fmt_fixed : f64 -> Z -> string.
+  Hypothesis fmt_fixed_ascii : forall x dp, all_ascii (fmt_fixed x dp) = true.
+
+  Lemma make_number_string_ascii value dp fmt :
+    ascii_digits fmt -> all_ascii (make_number_string fmt_fixed value dp fmt) = true.
+  Proof.
+    intros [Hz0 Hz9]. unfold make_number_string. destruct (negb _); [|apply fmt_fixed_ascii].
+    apply map_runes_ascii; [apply fmt_fixed_ascii|].
+    intros r Hr. destruct ((r - 48 <? 0) || (9 <? r - 48)) eqn:E; [lia|].
+    rewrite wrap32_small by lia. lia.
+  Qed.
+
+  (* THEOREM 3 (picture_total): FormatNumber never panics, for any value, picture and fuel,
+     when the format's separators are valid runes other than U+FFFD and its ten digits are
+     ASCII characters *)
+  Theorem picture_total fuel value picture fmt :
+    good_format fmt -> ascii_digits fmt ->
+    np (format_number fmt_fixed fuel value picture fmt).
+  Proof.
+    intros Hg Hd. unfold format_number.
+    destruct (seqb picture ""); [apply np_err|].
+    apply lbind_np; [now apply process_picture_no_panic|intros vars _].
+    destruct (is_nan value); [apply np_ok|]. destruct (is_inf value); [apply np_ok|].
+    cbv zeta. apply lbind_np.
+    - destruct (negb _); [|apply np_ok].
+      destruct (scale_up _ _ _ _) as [[v e]|]; [|intros w; discriminate].
+      destruct (scale_down _ _ _ _); [apply np_ok|intros w; discriminate].
+    - intros [v e] _.
+      destruct (split_string_at_byte _ 46) as [sint sfrac] eqn:Es.
+      apply lbind_np; [|intros; apply np_ok].
+      destruct (negb (seqb sint "")); [|apply np_ok].
+      apply format_integer_part_np_ascii; [exact Hd|].
+      replace sint with (fst (split_string_at_byte
+        (make_number_string fmt_fixed (xround v (sv_max_fractional_size vars))
+           (sv_max_fractional_size vars) fmt) 46)) by now rewrite Es.
+      apply split_string_at_byte_ascii. now apply make_number_string_ascii.
+  Qed.
+End NoPanic.
+Print Assumptions picture_total.
+
+(* ---- formats built by newDecimalFormat ---- *)
+Record good_runes (f : decimal_format) : Prop := {
+  gr_dec : good_rune (df_decimal_separator f);
+  gr_grp : good_rune (df_group_separator f);
+  gr_exp : good_rune (df_exponent_separator f);
+  gr_pat : good_rune (df_pattern_separator f);
+  gr_opt : good_rune (df_optional_digit f);
+  gr_zero : good_rune (df_zero_digit f)
+}.
+
+Lemma rune_len_valid r : 1 <= rune_len r -> valid_rune r = true.
+Proof.
+  unfold rune_len, valid_rune, is_surrogate, MaxRune.
+  repeat match goal with |- context [if ?c then _ else _] => destruct c eqn:? end; lia.
+Qed.
+
+Lemma good_runes_default : good_runes default_decimal_format.
+Proof. split; split; try reflexivity; discriminate. Qed.
+
+Lemma update_decimal_format_good f k v f' :
+  good_runes f -> update_decimal_format f k v = LOk f' -> good_runes f'.
+Proof.
+  intros [H1 H2 H3 H4 H5 H6]. unfold update_decimal_format.
+  destruct f as [ds gs es ms inf nan pc pm zd od ps]. simpl in *.
+  destruct (seqb k "infinity"); [intros [= <-]; split; assumption|].
+  destruct (seqb k "NaN"); [intros [= <-]; split; assumption|].
+  destruct (seqb k "percent"); [intros [= <-]; split; assumption|].
+  destruct (seqb k "per-mille"); [intros [= <-]; split; assumption|].
+  destruct (decode_rune v) as [r w] eqn:E.
+  destruct ((r =? RuneError) || negb (w =? slen v)%nat) eqn:Eb; [discriminate|].
+  assert (Hr : good_rune r).
+  { assert (Hne : r <> RuneError) by lia. split; [|exact Hne].
+    apply rune_len_valid. rewrite (decode_rune_len v r w E Hne).
+    assert (v <> "") by (intros ->; simpl in E; injection E as <- _; congruence).
+    pose proof (decode_rune_width v H) as Hw. rewrite E in Hw. simpl in Hw. lia. }
+  unfold set_rune_field.
+  repeat match goal with
+         | |- context [if seqb k ?s then _ else _] => destruct (seqb k s)
+         end; try discriminate; intros [= <-]; split; assumption.
+Qed.
+
+Lemma new_decimal_format_from_good opts : forall f f',
+  good_runes f -> new_decimal_format_from f opts = LOk f' -> good_runes f'.
+Proof.
+  induction opts as [|[k v] opts IH]; intros f f' Hf; simpl.
+  - now intros [= <-].
+  - destruct (update_decimal_format f k v) as [f1| | | |] eqn:E; simpl; try discriminate.
+    intros H. eapply IH; [|exact H]. eapply update_decimal_format_good; eauto.
+Qed.
+
+Lemma ascii_digits_good f : good_runes f -> ascii_digits f -> good_format f.
+Proof.
+  intros [H1 H2 H3 H4 H5 H6] [Hz0 Hz9]. split; auto.
+  unfold is_decimal_digit, RuneError. rewrite wrap32_small by lia. lia.
+Qed.
+
+(* every format that jlib.newDecimalFormat builds from an options object is good as soon as
+   its zero-digit is an ASCII character with nine successors *)
+Theorem new_decimal_format_good opts f :
+  new_decimal_format opts = LOk f -> ascii_digits f -> good_format f.
+Proof.
+  intros H Hd. apply ascii_digits_good; [|exact Hd].
+  eapply new_decimal_format_from_good; [apply good_runes_default|exact H].
+Qed.
+
+(* jlib.FormatNumber (default format or options object) never panics when the zero digit is
+   ASCII -- in particular with the default format *)
+Corollary lib_format_number_no_panic fmt_fixed fuel value picture options :
+  (forall x dp, all_ascii (fmt_fixed x dp) = true) ->
+  (forall opts f, options = Some opts -> new_decimal_format opts = LOk f -> ascii_digits f) ->
+  np (lib_format_number fmt_fixed fuel value picture options).
+Proof.
+  intros Hfx Hopt. unfold lib_format_number. destruct options as [opts|].
+  - apply lbind_np.
+    + intros w. clear Hopt. unfold new_decimal_format. generalize default_decimal_format.
+      induction opts as [|[k v] opts IH]; intros f; simpl; [discriminate|].
+      destruct (update_decimal_format f k v) as [f1|t| |w'|] eqn:E; simpl; try discriminate.
+      * apply IH.
+      * exfalso. unfold update_decimal_format in E. destruct f.
+        repeat match type of E with
+               | context [if ?c then _ else _] => destruct c; try discriminate
+               | context [let '(_, _) := ?p in _] => destruct p
+               | context [match ?x with Some _ => _ | None => _ end] => destruct x; try discriminate
+               end.
+    + intros f Hf. apply picture_total; auto.
+      apply (new_decimal_format_good opts f Hf). eauto. eapply Hopt; eauto.
+  - apply picture_total; auto.
+    + apply ascii_digits_good; [apply good_runes_default|]. split; simpl; lia.
+    + split; simpl; lia.
+Qed.
+Print Assumptions lib_format_number_no_panic.
+
+(* ---- closed instances (JV.Base.Decimal for strconv) ---- *)
+From JV.Base Require Import Decimal.
+From JV.Model Require Import LibNumberInst.
+
+Lemma digit_char_ascii d : 0 <= d < 36 -> byte_of (digit_char d) <? 128 = true.
+Proof.
+  intros H. unfold digit_char. destruct (d <? 10); rewrite byte_of_ascii_of_Z; lia.
+Qed.
+
+Lemma int_digits_ascii base : 2 <= base <= 36 -> forall fuel z acc,
+  0 <= z -> all_ascii acc = true -> all_ascii (int_digits fuel z base acc) = true.
+Proof.
+  intros Hb. induction fuel as [|f IH]; intros z acc Hz Ha; cbn [int_digits]; [exact Ha|].
+  assert (Hm : 0 <= z mod base < base) by (apply Z.mod_pos_bound; lia).
+  assert (Hacc : all_ascii (String (digit_char (z mod base)) acc) = true)
+    by (simpl; rewrite digit_char_ascii by lia; exact Ha).
+  destruct (z <? base); [exact Hacc|]. apply IH; [apply Z.div_pos; lia|exact Hacc].
+Qed.
+
+Lemma zeros_ascii n : all_ascii (zeros n) = true.
+Proof. unfold zeros. now apply all_ascii_srepeat. Qed.
+
+Lemma fmtF_ascii neg ds dp prec : all_ascii ds = true -> all_ascii (fmtF neg ds dp prec) = true.
+Proof.
+  intros H. unfold fmtF. cbv zeta.
+  repeat rewrite all_ascii_app.
+  repeat match goal with
+         | |- context [if ?c then _ else _] => destruct c
+         end;
+    repeat rewrite all_ascii_app;
+    rewrite ?zeros_ascii, ?all_ascii_stake, ?all_ascii_sdrop; auto;
+    try (apply all_ascii_stake; apply all_ascii_sdrop; exact H);
+    try (apply all_ascii_sdrop; exact H).
+Qed.
+
+Lemma digits_of_Z_ascii z : all_ascii (digits_of_Z z) = true.
+Proof.
+  unfold digits_of_Z. destruct (z <=? 0) eqn:E; [reflexivity|].
+  apply int_digits_ascii; auto; lia.
+Qed.
+
+Lemma format_float_fixed_ascii x p : all_ascii (format_float_fixed x p) = true.
+Proof.
+  unfold format_float_fixed. destruct x as [s|s| |s m e].
+  - now apply fmtF_ascii.
+  - destruct s; reflexivity.
+  - reflexivity.
+  - cbv zeta. destruct (_ =? 0); apply fmtF_ascii; [reflexivity|apply digits_of_Z_ascii].
+Qed.
+
+(* THEOREM 3, closed: the instantiated model of jxpath.FormatNumber never panics for formats
+   with valid separators and ASCII digits *)
+Theorem go_format_number_no_panic fuel value picture fmt :
+  good_format fmt -> ascii_digits fmt -> np (go_format_number fuel value picture fmt).
+Proof. apply picture_total. exact format_float_fixed_ascii. Qed.
+Print Assumptions go_format_number_no_panic.
+
+Example good_default : good_format default_decimal_format /\ ascii_digits default_decimal_format.
+Proof.
+  split; [apply ascii_digits_good; [apply good_runes_default|]|]; split; simpl; lia.
+Qed.
+
+(* ... and the restriction to uniform digit widths is necessary: with zero-digit U+007F the
+   digits 0 and 1..9 are one and two bytes wide, insertSeparatorsEvery steps back by
+   interval * (width of the LAST rune) bytes and slices s[-1:5]
+   (Go: "slice bounds out of range [-1:]") *)
+Definition fmt_del_digits : decimal_format :=
+  mk_decimal_format 46 44 101 45 "Infinity" "NaN" "%" (encode_rune 8240) 127 35 59.
+Example picture_total_refuted_for_mixed_width_digits :
+  good_format fmt_del_digits /\
+  exists w, go_format_number 10 (f_of_Z 1)
+              (String (ascii_of_Z 127) ("," ++ String (ascii_of_Z 127) (String (ascii_of_Z 127)
+                 (String (ascii_of_Z 127) ""))))
+              fmt_del_digits = LPanic w.
+Proof.
+  split.
+  - split; try (split; [reflexivity|discriminate]). reflexivity.
+  - eexists. vm_compute. reflexivity.
+Qed.
